@@ -6,6 +6,12 @@ here = os.path.dirname(os.path.abspath(__file__))
 root = os.path.dirname(here)
 props = [json.loads(l) for l in open(os.path.join(root, "properties.jsonl"))]
 claimed = json.load(open(os.path.join(here, "props.json")))
+import subprocess
+try:
+    out = subprocess.run(["git", "-C", "/repo", "log", "--format=%h", "--grep=^verif:"], capture_output=True, text=True, check=True).stdout
+    open(os.path.join(here, "hook_commits.txt"), "w").write(out)
+except Exception:
+    pass
 hooks = [l.strip() for l in open(os.path.join(here, "hook_commits.txt")) if l.strip()] if os.path.exists(os.path.join(here, "hook_commits.txt")) else []
 baseline = json.load(open("/root/.vp/BASELINE.json"))
 checks = []
